@@ -66,6 +66,10 @@ ELIDED_RP = {'_vertices': 'pix', 'vertices': 'pix', 'exterior_angle': 'qty', 'in
              'inradius': 'atom', 'perimeter': 'atom', 'side_length': 'atom'}
 META_KEYS = ['label', 'comment', 'name', 'include', 'tag', 'text', 'source', 'frame']
 VIS_KEYS = ['color', 'linewidth', 'fontsize', 'fill', 'symbol', 'marker', 'dashlist', 'fontname']
+FRAME_ATTRS = [('fk5', 'equinox', 'J1975'), ('fk5', 'equinox', 'J2015.5'), ('fk4', 'equinox', 'B1900'),
+               ('fk4', 'obstime', 'B1960'), ('geocentrictrueecliptic', 'equinox', 'J2010'),
+               ('geocentrictrueecliptic', 'obstime', 'J2010'), ('barycentricmeanecliptic', 'equinox', 'J1990'),
+               ('heliocentrictrueecliptic', 'obstime', 'J1995')]
 DS9_SYMBOLS = ['circle', 'box', 'diamond', 'x', 'cross', 'arrow', 'boxcircle']
 WORDS = ['a', 'bb', 'Crab', 'src 1', 'x_y', 'green', 'red', '', 'Zeta', 'tick']
 
@@ -130,10 +134,27 @@ def build(spec, world=None):
     if t == 'qty':
         return unfl(spec['v']) * u.Unit(spec['unit'])
     if t == 'sky':
+        fattrs = dict(spec.get('fattrs') or {})
+        frame = spec['frame']
+        style = spec.get('fstyle')
+        if style in ('cls', 'explicit', 'time'):
+            # the same frame written differently: a frame object / its default attributes spelled out
+            import astropy.coordinates as coords
+            from astropy.time import Time
+            fcls = coords.frame_transform_graph.lookup_name(frame)
+            inst = fcls(**fattrs)        # defaults may depend on the given attributes (FK4: obstime follows equinox)
+            dflt = {k: getattr(inst, k) for k in fcls.frame_attributes if getattr(inst, k) is not None}
+            if style == 'cls':
+                frame = fcls(**fattrs)
+                fattrs = {}
+            elif style == 'explicit':
+                fattrs = dict(dflt, **fattrs)
+            else:
+                fattrs = {k: (Time(v) if isinstance(v, (str, Time)) else v) for k, v in dict(dflt, **fattrs).items()}
         if spec['scalar']:
-            return SkyCoord(unfl(spec['lon'][0]), unfl(spec['lat'][0]), unit='deg', frame=spec['frame'])
+            return SkyCoord(unfl(spec['lon'][0]), unfl(spec['lat'][0]), unit='deg', frame=frame, **fattrs)
         return SkyCoord([unfl(v) for v in spec['lon']], [unfl(v) for v in spec['lat']], unit='deg',
-                        frame=spec['frame'])
+                        frame=frame, **fattrs)
     if t == 'list':
         return [build(v, world) for v in spec['v']]
     if t in ('rmeta', 'rvisual', 'dict'):
@@ -925,6 +946,18 @@ class Check(PropertyCheck):
                         cases.append(self.gen_eq(g, cls, which, None, m, descend=False))
                 for what in ('class', 'unit', 'unit', 'same', 'same', 'nan', 'refl'):
                     cases.append(self.gen_eq(g, cls, what, descend=False))
+                # frame attributes of every sky position (equinox, obstime), and equivalent spellings
+                for nm_, k_ in ALL[cls]:
+                    if k_ in ('sky', 'skyarr'):
+                        for fa_ in FRAME_ATTRS:
+                            cases.append(self.gen_eq(g, cls, 'frameattr', nm_, ('differ', fa_, None), descend=False))
+                        for st_ in ('cls', 'explicit', 'time'):
+                            cases.append(self.gen_eq(g, cls, 'frameattr', nm_,
+                                                     ('equiv', rng.choice(FRAME_ATTRS), st_), descend=False))
+                if cls == 'CompoundSkyRegion':
+                    for fa_ in FRAME_ATTRS:            # inside an operand, at any depth
+                        cases.append(self.gen_eq(g, cls, 'frameattr', None, ('differ', fa_, None)))
+                        cases.append(self.gen_eq(g, cls, 'frameattr', None, ('equiv', fa_, rng.choice(['cls', 'explicit', 'time']))))
                 # DS9 point symbols (incl. the two matplotlib Path constants) in `visual`
                 for sym in DS9_SYMBOLS:
                     cases.append(self.gen_copy(g, cls, marker=sym))
@@ -1267,6 +1300,40 @@ class Check(PropertyCheck):
                     un2 = r.choice([x for x in ['deg', 'arcmin', 'arcsec', 'rad'] if x != q['unit']])
                     exact = Fraction(v) * UNIT_FACTOR[q['unit']] / UNIT_FACTOR[un2]
                     set_param(tgt, n, {'t': 'qty', 'v': fl(float(exact)), 'unit': un2})
+        if what == 'frameattr':
+            # identical numbers, same frame class; only a frame ATTRIBUTE differs (mode 'differ'), or the
+            # same frame is written differently (mode 'equiv')
+            mode, (fname, attr, val), style = fmode
+            while tgt['cls'].startswith('Compound'):         # down to a leaf operand
+                which = r.choice(['region1', 'region2'])
+                path.append(which)
+                tgt = get_param(tgt, which)
+            tcls = info['tcls'] = tgt['cls']
+            sks = [nm for nm, k in ALL[tcls] if k in ('sky', 'skyarr')]
+            nm = field if field in sks else r.choice(sks)
+            ta = a
+            for pth in path:
+                ta = get_param(ta, pth)
+            va = dict(get_param(ta, nm), frame=fname)
+            va.pop('fattrs', None)
+            va.pop('fstyle', None)
+            if fname.endswith('ecliptic'):
+                va['lat'] = [fl(max(-80.0, min(80.0, unfl(x)))) for x in va['lat']]
+            vb = json.loads(json.dumps(va))
+            if mode == 'differ':
+                vb['fattrs'] = {attr: val}
+                if r.random() < 0.5:
+                    va['fattrs'] = {attr: r.choice(['J2000.5', 'B1950.5'])} if attr == 'obstime' else None
+                    if va['fattrs'] is None:
+                        va.pop('fattrs')
+            else:
+                if r.random() < 0.5:          # a non-default attribute on both sides, written differently
+                    va['fattrs'] = {attr: val}
+                    vb['fattrs'] = {attr: val}
+                vb['fstyle'] = style
+            set_param(ta, nm, va)
+            set_param(tgt, nm, vb)
+            info.update(mode=mode, field=nm, frame=fname, attr=attr, style=style)
         if what == 'marker':
             sa, sb = fmode
             info.update(mode='same' if sb is None else 'value', key='marker', syms=[sa, sb])
@@ -1825,8 +1892,11 @@ class Check(PropertyCheck):
             if frag:
                 return V
             expect = None
-            if what in ('same', 'unit', 'refl') or (what == 'marker' and info['mode'] == 'same'):
+            if what in ('same', 'unit', 'refl') or (what == 'marker' and info['mode'] == 'same') \
+                    or (what == 'frameattr' and info['mode'] == 'equiv'):
                 expect = True
+            elif what == 'frameattr':
+                expect = False
             elif what == 'marker':
                 expect = False
             elif what in ('meta', 'visual', 'class', 'subclass'):
